@@ -27,9 +27,21 @@ def new_id():
     return next(_ids)
 
 
-def prim(w, cls, const=None, note=None, line=None, lenof=None):
-    return {"t": "prim", "w": w, "cls": cls, "id": new_id(), "const": const, "note": note, "line": line,
-            "lenof": lenof}
+_registry = {}
+
+
+def prim(w, cls, const=None, note=None, line=None, lenof=None, names=()):
+    p = {"t": "prim", "w": w, "cls": cls, "id": new_id(), "const": const, "note": note, "line": line,
+         "lenof": lenof, "names": set(norm_ident(n) for n in names if n)}
+    _registry[p["id"]] = p
+    return p
+
+
+def add_name(prim_id, name):
+    """the reader binds the value of this element to `name` (a local, a field of the decoded record)"""
+    p = _registry.get(prim_id)
+    if p is not None and name:
+        p["names"].add(norm_ident(name))
 
 
 def call(key, label, line=None):
@@ -144,6 +156,7 @@ def norm_ident(s):
     return re.sub(r"[^a-z0-9]", "", (s or "").split("::")[-1].lower())
 
 
+STOP = {"reader", "writer", "buffer", "self", "value", "data", "index", "idx", "id", "len", "size", "unwrap"}
 CLS_OF_WIDTH = {1: "u8", 2: "u16", 4: "u32", 8: "u64", 16: "u128"}
 
 
@@ -185,6 +198,32 @@ class Comparer:
     # -- sequences
     def seq(self, ws, rs, idmap, path, diffs, wstack, rstack, budget):
         ws, rs = list(ws), list(rs)
+        i = j = 0
+        pos = 0
+        matched = []
+        try:
+            self._seq(ws, rs, idmap, path, diffs, wstack, rstack, budget, matched)
+        finally:
+            self.permutations(matched, path, diffs)
+
+    def permutations(self, matched, path, diffs):
+        """two same-width neighbours whose names cross over: the writer's i-th operand is named like what the reader
+        binds at j and vice versa, and neither agrees at its own position"""
+        for x in range(len(matched)):
+            for y in range(x + 1, len(matched)):
+                (pa, a1, b1), (pb, a2, b2) = matched[x], matched[y]
+                n1w, n1r, n2w, n2r = (a1.get("names") or set()) - STOP, (b1.get("names") or set()) - STOP, \
+                    (a2.get("names") or set()) - STOP, (b2.get("names") or set()) - STOP
+                if a1["w"] != a2["w"] or not (n1w and n1r and n2w and n2r):
+                    continue
+                if (n1w & n2r) and (n2w & n1r) and not (n1w & n1r) and not (n2w & n2r):
+                    diffs.append(Diff("permuted", "%s[%d]" % (path, pa), "elements %d and %d have the same width but "
+                                      "the writer's operands (%s%s then %s%s) are named like what the reader binds in "
+                                      "the opposite order (%s then %s)" % (
+                                          pa, pb, a1["cls"], note(a1), a2["cls"], note(a2),
+                                          "/".join(sorted(n1r)), "/".join(sorted(n2r))), a1.get("line"), b1.get("line")))
+
+    def _seq(self, ws, rs, idmap, path, diffs, wstack, rstack, budget, matched):
         i = j = 0
         pos = 0
         while i < len(ws) or j < len(rs):
@@ -231,6 +270,7 @@ class Comparer:
                 return
             if a["t"] == "prim":
                 idmap[a["id"]] = b["id"]
+                matched.append((pos, a, b))
                 if a["w"] != b["w"]:
                     diffs.append(Diff("width", here, "the writer emits %d byte(s) (%s%s) where the reader takes %d "
                                       "byte(s) (%s%s)" % (a["w"], a["cls"], note(a), b["w"], b["cls"], note(b)),
